@@ -6,7 +6,10 @@ pub mod c03;
 pub mod c04;
 pub mod c05;
 pub mod c06;
+pub mod c07;
+pub mod c08;
 pub mod c09;
+pub mod c11;
 
 pub fn dispatch(id: &str, tier: Tier, seed: u64, extra: &[String]) -> i32 {
     let _ = extra;
@@ -17,7 +20,10 @@ pub fn dispatch(id: &str, tier: Tier, seed: u64, extra: &[String]) -> i32 {
         "C04" => c04::run(&Ctx::new("C04", tier, seed)),
         "C05" => c05::run(&Ctx::new("C05", tier, seed)),
         "C06" => c06::run(&Ctx::new("C06", tier, seed)),
+        "C07" => c07::run(&Ctx::new("C07", tier, seed)),
+        "C08" => c08::run(&Ctx::new("C08", tier, seed)),
         "C09" => c09::run(&Ctx::new("C09", tier, seed)),
+        "C11" => c11::run(&Ctx::new("C11", tier, seed)),
         _ => {
             eprintln!("unknown check {}", id);
             2
